@@ -47,15 +47,14 @@ ASSUMPTIONS = [
     "on which candidate wins)",
     "the value recorded on the LAST member of a chain is not constrained by the property (cryoCAT leaves stale values there after a cut) "
     "and is not judged; object numbers need not be contiguous",
-    "suffix_tailcut (add_chain_suffix: 'the new chain is better, cut of the tail') and the cl_max <= 1 side of 'if cl_max > 1' are unreachable "
-    "for tie-free inputs: a particle F heading a new chain was unclaimed during all earlier tracing, so every exit X with |X.exit-F.entry| in "
-    "range either linked to a strictly nearer entry (previous_dist < current_dist: reject) or never ended a chain; X can become a chain end "
-    "only through a prefix cut, and then chain_max_order == order_id; after a successful suffix every order of the new chain is >= 2. "
-    "They carry no claim (0 hits in every run incl. 60 000 random dense probe cases); mutants placed there are negative controls",
+    "the false side of `if cl_max > 1` in trace_chains is unreachable (after a successful suffix join every order number of the new chain is "
+    "at least 2) and carries no claim.  add_chain_suffix's tail cut IS reachable, but only through a particular history: a prefix cut turns P "
+    "into a chain end, a first suffix partner F1 joins it, and a later chain F2 starts closer to P's exit (any exit met during plain tracing "
+    "already took its nearest unclaimed entry, so it refuses later suitors); classes tail_cut* construct exactly this",
 ]
 
 CLASSES = ["random_cluster", "line_mid_start", "prefix_cut", "prefix_reject", "prefix_first", "heads_compete", "suffix_reject_fork",
-           "suffix_after_cut", "both_sides_nocut", "both_sides_cut", "both_sides_reject", "bend_back_after_cut", "same_target_single",
+           "suffix_after_cut", "both_sides_nocut", "both_sides_cut", "both_sides_reject", "bend_back_after_cut", "tail_cut", "tail_cut_after_join", "tail_cut_with_join", "same_target_single",
            "same_chain_bridge", "closed_ring", "min_distance_shell", "tomo_overlap", "odd_ids_index", "zero_displacement", "tiny"]
 
 CLAUSES = ["partition", "tomogram", "orders", "link_range", "link_recorded"]
@@ -74,7 +73,7 @@ BR_MAIN = {"skip_used": ("continue", 0), "all_used_end": "np_idx = -1", "continu
            "same_chain_test": "part1 = fm_exit.df.loc[", "same_chain_suffix_only": ("nm_idx = -1  # add only suffix", 1),
            "same_chain_prefix_only": ("first_idx = -1  # add only prefix", 1), "call_suffix": "ch_changed = add_chain_suffix(",
            "call_prefix": "class_max = None", "both_sides": "class_max = (cl_max, current_class)"}
-UNREACHABLE = {"add_chain_suffix.suffix_tailcut"}
+UNREACHABLE = set()
 ANCHORS = {"get_nn_dist": BR_NN, "add_chain_suffix": BR_SUF, "add_chain_prefix": BR_PRE, "trace_chains": BR_MAIN}
 REACH = ["reach:%s.%s" % (a, b) for a, br in ANCHORS.items() for b in br if "%s.%s" % (a, b) not in UNREACHABLE]
 
@@ -86,7 +85,7 @@ def plan(tier):
         me = {c: 300 for c in CLAUSES}
         me.update({"truth_chains": 300, "trivial_pairs": 300})
         me.update(reach)
-        return dict(n_cases=n, shards=2, classes=CLASSES, timeout_s=600, min_evals=me, min_anchor_calls={"trace_chains": 300})
+        return dict(n_cases=n, shards=3, classes=CLASSES, timeout_s=600, min_evals=me, min_anchor_calls={"trace_chains": 300})
     n = len(CLASSES) * 640
     me = {c: 12000 for c in CLAUSES}
     me.update({"truth_chains": 12000, "trivial_pairs": 12000})
@@ -149,8 +148,7 @@ def setup(ctx):
     ctx.declare("truth_chains", "trivial_pairs")
     monitors.trace(ctx, [("trace_chains", f, BR_MAIN), ("add_chain_suffix", ribana.add_chain_suffix, BR_SUF),
                          ("add_chain_prefix", ribana.add_chain_prefix, BR_PRE), ("get_nn_dist", ribana.get_nn_dist, BR_NN)])
-    ctx.notes.append("unreachable for tie-free inputs (see assumptions), no claim: " + ", ".join(sorted(UNREACHABLE)) +
-                     ", trace_chains 'if cl_max > 1' false side")
+    ctx.notes.append("unreachable (see assumptions), no claim: trace_chains 'if cl_max > 1' false side")
 
 
 def teardown(ctx):
@@ -259,9 +257,9 @@ class Scene:
         self.edges.add((ids[-1], target))
         return ids
 
-    def attach_out(self, source, d, w, k):
-        """a chain of k leaving along w: its first entry lies at distance d from the exit of `source`."""
-        ids = self.fwd(self.X[source] + d * w, w, k)
+    def attach_out(self, source, d, w, k, body=None):
+        """a chain of k whose first entry lies at distance d (direction w) from the exit of `source`; it runs along `body` (default w)."""
+        ids = self.fwd(self.X[source] + d * w, w if body is None else body, k)
         self.edges.add((source, ids[0]))
         return ids
 
@@ -366,6 +364,9 @@ def g_after_cut(sc, v, end):
     f = 1 if (h == 0 and (v // 3) % 2 == 0) else 1 + (v // 3) % 3
     t, ell = int(rng.integers(0, 3)), int(rng.integers(1, 3))
     d1, d2, d3 = sc.frac(0.3, 0.6), sc.frac(0.03, 0.25), sc.frac(0.65, 0.98)
+    flip = v % 8 == 7                             # L farther than P: the cut is refused, F then meets a non-terminal P (suffix refused)
+    if flip:
+        d1, d2 = d2, d1
     u = _rand_unit(rng)
     bef, aft = sc.through(np.zeros(3), u, h + 1, t, d1)
     P = bef[-1]
@@ -378,14 +379,15 @@ def g_after_cut(sc, v, end):
         ds = d3
         dp = sc.frac(0.05, 0.5) if mode else ds + (sc.D - ds) * float(rng.uniform(0.2, 0.9))
         F = sc.bridge(P, ds, bef[0], dp, ws[1], q)
-        return base + F, "aftercut-back/h%dq%d/%s" % (h, q, "prefix" if mode else "suffix")
-    F = sc.attach_out(P, d3, ws[1], f)
+        return base + F, "aftercut-back/h%dq%d/%s%s" % (h, q, "prefix" if mode else "suffix", "/nocut" if flip else "")
+    th = np.radians(rng.uniform(20, 45))
+    F = sc.attach_out(P, d3, -np.cos(th) * u + np.sin(th) * ws[1], f, body=ws[1])    # entry behind P's exit, body running away sideways
     if end == "none":
-        return base + F, "aftercut-none/h%df%d" % (h, f)
+        return base + F, "aftercut-none/h%df%d%s" % (h, f, "/nocut" if flip else "")
     before = 0 if end == "head" else 1 + (v // 9) % 2
-    if end == "mid_closer":
+    if (end == "mid_closer") != (flip and end in ("mid_closer", "mid_farther")):
         d4, dw = sc.frac(0.03, 0.4), sc.frac(0.55, 0.98)
-    elif end == "mid_farther":
+    elif end in ("mid_closer", "mid_farther"):
         d4, dw = sc.frac(0.55, 0.98), sc.frac(0.03, 0.4)
     else:
         d4, dw = sc.frac(0.05, 0.98), sc.frac(0.05, 0.98)
@@ -394,7 +396,48 @@ def g_after_cut(sc, v, end):
     sc.edges.add((F[-1], wa[0]))
     other = wb + wa
     rows = (other + base + F) if (v // 2) % 2 else (base + other + F)
-    return rows, "aftercut-%s/h%df%d/w%d" % (end, h, f, before)
+    return rows, "aftercut-%s/h%df%d/w%d%s" % (end, h, f, before, "/nocut" if flip else "")
+
+
+def _meet(sc, v, F, w, end):
+    """another chain whose member T has its entry within range of the last exit of F (end: head | mid_closer | mid_farther)."""
+    rng = sc.rng
+    before = 0 if end == "head" else 1 + (v // 4) % 2
+    if end == "mid_closer":
+        d4, dw = sc.frac(0.03, 0.4), sc.frac(0.55, 0.98)
+    elif end == "mid_farther":
+        d4, dw = sc.frac(0.55, 0.98), sc.frac(0.03, 0.4)
+    else:
+        d4, dw = sc.frac(0.05, 0.98), sc.frac(0.05, 0.98)
+    e_t = sc.X[F[-1]] + d4 * _tilt(rng, w, 10)
+    wb, wa = sc.through(e_t, _perp(rng, w), before, int(rng.integers(0, 3)), dw)
+    sc.edges.add((F[-1], wa[0]))
+    return wb + wa
+
+
+def g_tail_cut(sc, v, f1_end, f2_end):
+    """P->Y is cut by a closer L; the chain end P then gets a suffix partner F1 (farther, earlier rows) and later a closer F2:
+    add_chain_suffix cuts the tail F1.. off again.  f1_end / f2_end: none | head | mid_closer | mid_farther = what the last exit
+    of F1 / F2 meets (another chain, giving both-sided joins before / together with the tail cut)."""
+    rng = sc.rng
+    h, t = v % 3, int(rng.integers(0, 2))
+    d1, d2 = sc.frac(0.35, 0.5), sc.frac(0.03, 0.25)
+    d3a, d3b = sc.frac(0.85, 0.98), sc.frac(0.6, 0.75)
+    if v % 8 == 5:                                # the later partner is the farther one: tail kept, F2 refused (not last, not better)
+        d3a, d3b = d3b, d3a
+    u = _rand_unit(rng)
+    bef, aft = sc.through(np.zeros(3), u, h + 1, t, d1)
+    P = bef[-1]
+    ws = _perp_set(rng, u, 3)
+    L = sc.attach_in(aft[0], d2, ws[0], int(rng.integers(1, 3)))
+    rows = bef + aft + L
+    lens = (1 + (v // 3) % 2, 1 + (v // 6) % 2)
+    for d3, w, end, f in ((d3a, ws[1], f1_end, lens[0]), (d3b, ws[2], f2_end, lens[1])):
+        th = np.radians(rng.uniform(25, 45))
+        F = sc.attach_out(P, d3, -np.cos(th) * u + np.sin(th) * w, f, body=w)   # entry behind P's exit, body running away sideways
+        other = _meet(sc, v, F, w, end) if end != "none" else []
+        rows = (other + rows + F) if (other and (v // 2) % 2) else (rows + other + F)
+    return rows, "tailcut-%s-%s/h%df%d%d%s" % (f1_end, f2_end, h, lens[0], lens[1], "/kept" if v % 8 == 5 else "")
 
 
 def g_same_target(sc, v):
@@ -539,6 +582,9 @@ GADGETS = {
     "both_sides_cut": lambda sc, v: g_after_cut(sc, v, "mid_closer"),
     "both_sides_reject": lambda sc, v: g_after_cut(sc, v, "mid_farther"),
     "bend_back_after_cut": lambda sc, v: g_after_cut(sc, v, "back"),
+    "tail_cut": lambda sc, v: g_tail_cut(sc, v, "none", "none"),
+    "tail_cut_after_join": lambda sc, v: g_tail_cut(sc, v, ["head", "mid_closer", "mid_farther"][(v // 3) % 3], ["none", "head"][(v // 9) % 2]),
+    "tail_cut_with_join": lambda sc, v: g_tail_cut(sc, v, ["none", "head"][(v // 9) % 2], ["mid_closer", "head", "mid_farther"][(v // 3) % 3]),
     "same_target_single": g_same_target,
     "same_chain_bridge": g_bridge,
     "closed_ring": g_ring,
